@@ -17,6 +17,7 @@ EXPLANATION = (
 def run(e, R, tier):
     R.run_rules(e, [
         B.r_waitset,
+        L.r_iter_snapshot,
         B.r_broken_paths,
         B.r_mgr_total,
         B.r_broken_dispatch,
@@ -29,6 +30,7 @@ def run(e, R, tier):
         L.r_wake,
         L.r_own_resolve,
         L.r_drop_resolves,
+        L.r_callback_lock,
         L.r_cancel_safe,
     ])
     R.trust("multiprocessing.connection.wait returns the ready subset; Process.sentinel becomes ready when the process ends")
